@@ -15,7 +15,7 @@ from vpc.core import cN, cstr, clist, copt, cbool
 from props.C17 import peer_id, good_addr, rand_component, cproto, refresh_lock, pipeline_retry
 
 IMPORTS = "Require Import V.model.Parsers V.model.BootCache."
-THEOREMS = ["ctor_paths_agree", "flush_then_load", "late_override_refuted", "constants_c18", "bounded_after_cleanup", "bounded_without_sync", "sync_breaks_bound_refuted",
+THEOREMS = ["sync_counters_bounded", "sync_wrapping_refuted", "log_head_slice_refuted", "ctor_paths_agree", "flush_then_load", "late_override_refuted", "constants_c18", "bounded_after_cleanup", "bounded_without_sync", "sync_breaks_bound_refuted",
             "load_bounded", "flush_with_cleanup_bounded", "craft_wellformed", "craft_fixpoint", "wellformed",
             "foreign_file_unvalidated_refuted", "keys_unique", "cleanup_postcondition", "cleanup_evicts_oldest",
             "cleanup_fixpoint", "sync_loses_nothing", "flush_merges", "save_load", "save_load_clean",
@@ -26,12 +26,18 @@ RULE = ("data histories: 12-40 steps over 3 CacheData slots, 4-8 peers with 2-5 
         "(raw multiaddresses with extra protocols, unparsable text), status updates, removals, clean-ups, foreign / "
         "valid / corrupt cache files written underneath (incl. long ones, so that the next flush is a shrinking rewrite of the "
         "same path), flushes with and without clean-up, loads, sleeps; "
+        "merge histories: a file entry with counters at 0, 1, 2, 2^15, 2^16, 2^31 and u32::MAX-{0,1,2} neighbours x the same peer "
+        "and address known in memory (added, 0-2 status updates) with a later last_seen, flush (re-read + merge), load, second "
+        "round; foreign files: valid UTF-8 non-cache texts with a 2-/3-/4-byte character across every byte offset 1..300 and "
+        "around 1024 / 4096, after plain and JSON-looking filler, invalid UTF-8, dropped at the cache path before load / flush; "
         "constructors: BootstrapCacheStore::new and new_from_peers_args with every combination of config given / default, "
         "bootstrap_cache_dir, first, local (and both values of the two flags it ignores), a distinct cache file present at each "
         "candidate location, then add / flush / reload through an identically constructed store; "
         "concurrent: 4-8 threads + 2-3 processes x 15-40 flushes with a reader; a case is distinct/non-trivial by "
         "(kind, limits, multiset of step kinds, whether an eviction / expiry / merge / corrupt file occurred)")
 ASSUMPTIONS = [
+    "the harness binaries install a tracing subscriber at TRACE level that formats every event into a sink, as nodes and "
+    "clients always do: log-argument evaluation is part of the behaviour under test",
     "rename(2) replaces the cache file atomically and AtomicWriteFile's temporary files are private to a writer "
     "(premise of atomic_replace, built into the step `Commit` of the file-system model); the concurrent runs are "
     "runtime evidence, not proof",
@@ -189,6 +195,81 @@ def gen_store_history(rng, deep):
     return {"op": "history", "kind": "store", "cfg": cfg, "steps": steps}
 
 
+COUNTER_EDGES = [0, 1, 2, 2 ** 15 - 1, 2 ** 15, 2 ** 16 - 1, 2 ** 16, 2 ** 31 - 1, 2 ** 31, U32 - 3, U32 - 2, U32 - 1]
+
+
+def gen_merge_history(rng):
+    """the merge path of the cache FILE: an entry with boundary counters in the file, the same peer + address known in memory
+    with its own counters and a later last_seen, then sync_and_flush_to_disk re-reads the file and merges the two"""
+    cfg = {"max_peers": rng.choice([2, 5, 1500]), "max_addrs": rng.choice([2, 6]), "expiry_secs": 86400}
+    pool = Pool(rng, 2)
+    peers, data, steps = {}, [], []
+    targets = []
+    for p in pool.peers:
+        lst, dl = [], []
+        for (t, pr) in pool.addrs[p[0]][:2]:
+            s_, f_ = rng.choice(COUNTER_EDGES), rng.choice(COUNTER_EDGES)
+            if f_ > s_ and rng.random() < 0.85:
+                s_, f_ = f_, s_            # reliable entries survive the load's clean-up and reach the merge
+            off = -rng.randrange(5, 3000)
+            lst.append({"addr": t, "success_count": s_, "failure_count": f_,
+                        "last_seen": {"secs_since_epoch": "@S%d@" % off, "nanos_since_epoch": 0}})
+            dl.append({"protos": pr, "s": s_, "f": f_, "rel": off * 10 ** 9, "addr": t})
+            targets.append(t)
+        peers[p[0]] = lst
+        data.append({"peer": p[1].hex(), "addrs": dl})
+    text = json.dumps({"peers": peers, "last_updated": {"secs_since_epoch": "@S-1@", "nanos_since_epoch": 0}, "network_version": "1_0.1"})
+    text = re.sub(r'"(@S-?\d+@)"', r"\1", text)
+    wf = {"k": "write_file", "text": text, "data": data, "fkind": "valid"}
+    mem = []
+    for t in targets:
+        if rng.random() < 0.8:
+            mem.append({"k": "add", "addr": t})
+            for _ in range(rng.choice([0, 0, 1, 2])):
+                mem.append({"k": "status", "addr": t, "ok": rng.random() < 0.6})
+    steps = ([wf] + mem) if rng.random() < 0.5 else (mem + [wf])
+    steps += [{"k": "flush", "cleanup": True}, {"k": "load"}]
+    if rng.random() < 0.5:        # a second round: the merged counters meet the memory again
+        steps += [s for s in mem if s["k"] == "add"] + [{"k": "flush", "cleanup": rng.random() < 0.7}, {"k": "load"}]
+    return {"op": "history", "kind": "store", "fam": "merge", "cfg": cfg, "steps": steps}
+
+
+def straddle_texts(offsets, widths=(2, 3, 4)):
+    """valid UTF-8 texts that are not cache files, with a 2-, 3- or 4-byte character covering byte offset o (it starts at
+    o-1), after plain or JSON-looking filler: whatever byte offset a message / preview slices at is off a boundary"""
+    chars = {2: "\u00e4", 3: "\u20ac", 4: "\U0001f511"}
+    out = []
+    for i, o in enumerate(offsets):
+        for w in widths:
+            pre = '{"peers":{"' if (o - 1 >= 11 and (i + w) % 2 == 0) else "#"
+            body = pre + "a" * (o - 1 - len(pre)) if o - 1 >= len(pre) else "a" * (o - 1)
+            t = body + chars[w] + "\u00e4\u00f6\u00fc" * 4 + "x" * 70
+            assert len(body.encode()) == o - 1
+            out.append(t.encode("utf-8"))
+    return out
+
+
+def gen_foreign_histories(rng, offsets, per_history=20):
+    """files that are not cache files (valid UTF-8 with characters across every small byte offset, invalid UTF-8, JSON-looking
+    prefixes) dropped at the cache path: load must refuse them and the next flush must overwrite them, without crashing"""
+    files = straddle_texts(offsets)
+    files += [b"\xff" * 70, b"a" * 63 + b"\xc3", b"a" * 63 + b"\xe2\x82", b'{"peers":{"' + b"\xf0\x9f" * 40, b"\xef\xbb\xbf{}" + b" " * 80,
+              ('{"peers": {}, "last_updated": "' + "\u00fc" * 100 + '"}').encode(), ("[" * 63 + "\u00e4" + "]" * 70).encode(),
+              b'{"peers":{}}' + b" " * 52 + "\u20ac".encode() * 10]
+    pool = Pool(rng, 2)
+    out = []
+    for i in range(0, len(files), per_history):
+        steps = [{"k": "add", "addr": pool.pick()[1][0]}]
+        for j, b in enumerate(files[i:i + per_history]):
+            steps += [{"k": "write_file", "fkind": "corrupt", "bytes": list(b)}, {"k": "load"}]
+            if j % 7 == 6:
+                steps += [{"k": "flush", "cleanup": True}, {"k": "load"}, {"k": "add", "addr": pool.pick()[1][0]}]
+        steps += [{"k": "flush", "cleanup": True}, {"k": "load"}]
+        out.append({"op": "history", "kind": "store", "fam": "foreign-text", "cfg": {"max_peers": 5, "max_addrs": 3, "expiry_secs": 86400},
+                    "steps": steps})
+    return out
+
+
 def seed_file_text(rng, p):
     t, pr = good_addr(rng, p)
     text = json.dumps({"peers": {p[0]: [{"addr": t, "success_count": 2, "failure_count": 0,
@@ -230,6 +311,10 @@ def gen(ctx):
     for i in range(70 if quick else 700):
         cases.append(gen_store_history(rng, deep=(i % 12 == 11)))
     cases += gen_ctor_cases(rng)
+    for i in range(40 if quick else 400):
+        cases.append(gen_merge_history(rng))
+    offs = list(range(1, 301)) + [o + d for o in (1024, 4096) for d in (-2, -1, 0, 1, 2)]
+    cases += gen_foreign_histories(rng, offs if not quick else [o for o in offs if o <= 130 or o % 3 == 1 or o > 1000])
     conc = [{"threads": 4, "procs": 2, "rounds": 15, "per_round": 4, "max_peers": 1500},
             {"threads": 8, "procs": 3, "rounds": 20, "per_round": 3, "max_peers": 50}]
     if not quick:
@@ -348,7 +433,7 @@ def oracle(c, o):
         return v
     # store histories
     foreign_addrs = set()
-    mem, file_recs = [], None
+    mem, file_recs, file_small = [], None, False     # file_small: the load's clean-up cannot evict / truncate anything
     for i, (st, tr) in enumerate(zip(steps, trace)):
         k = st["k"]
         where = "store step %d (%s)" % (i, k)
@@ -388,6 +473,27 @@ def oracle(c, o):
                     missing = [key for key in want if key not in have]
                     if missing:
                         v.append(("sync-loses", "%s: %d in-memory address(es) missing from the flushed file, e.g. %s" % (where, len(missing), missing[0][1])))
+            if f.get("state") == "ok" and file_recs is not None and file_small:
+                # the documented merge rule for an address known to memory AND to the (loadable, cleaned) file
+                have = recs(f["peers"])
+                for key, m in recs(mem).items():
+                    fr = file_recs.get(key)
+                    if fr is None or fr["rel"] == m["rel"]:
+                        continue
+                    if fr["f"] > fr["s"] or int(fr["rel"]) > now_rel or now_rel - int(fr["rel"]) >= cfg["expiry_secs"] * 10 ** 9:
+                        continue                        # the load's clean-up drops it before the merge
+                    es, ef = min(m["s"] + fr["s"], U32 - 1), min(m["f"] + fr["f"], U32 - 1)
+                    if es == U32 - 1:
+                        es, ef = 1, 0
+                    elif ef == U32 - 1:
+                        es, ef = 0, 1
+                    got = have.get(key)
+                    if st["cleanup"] and ef > es:
+                        if got is not None:
+                            v.append(("merge-counters", "%s: merged entry %s should be unreliable (%d/%d) and dropped" % (where, key[1], es, ef)))
+                    elif got is not None and (got["s"], got["f"]) != (es, ef):
+                        v.append(("merge-counters", "%s: %s merged to success %d / failure %d; memory had %d/%d, the file %d/%d, the "
+                                  "saturating rule gives %d/%d" % (where, key[1], got["s"], got["f"], m["s"], m["f"], fr["s"], fr["f"], es, ef)))
             if store:
                 v.append(("flush-keeps-memory", "%s: the store still lists peers after a flush" % where))
         if k == "load":
@@ -407,6 +513,16 @@ def oracle(c, o):
             if prev.get("fkind") == "corrupt" and tr.get("ok") and bytes(prev["bytes"]) not in (b'{"peers":{}}',):
                 pass
         mem = store
+        if k == "write_file":
+            file_recs = {(p["peer"], a["addr"]): {"s": a["s"], "f": a["f"], "rel": str(a["rel"])} for p in st["data"] for a in p["addrs"]} \
+                if st.get("fkind") in ("valid", "foreign") else None
+            file_small = file_recs is not None and len(st["data"]) <= cfg["max_peers"] and all(len(p["addrs"]) <= cfg["max_addrs"] for p in st["data"])
+        elif k == "delete_file":
+            file_recs = None
+        elif k == "flush":
+            f = tr.get("file") or {}
+            file_recs = recs(f["peers"]) if f.get("state") == "ok" else None
+            file_small = file_recs is not None and len(f["peers"]) <= cfg["max_peers"] and all(len(p["addrs"]) <= cfg["max_addrs"] for p in f["peers"])
     return v
 
 
